@@ -12,6 +12,86 @@ SEL = z3.Function('selectors.item', z3.IntSort(), S); NSEL = z3.Int('n_selectors
 VALID = z3.Function('_validate_selector.ok', S, z3.BoolSort())
 
 
+# ---- native search family for the three selector functions (used when a contract is undecided on the current source, and to find a failing input
+#      for a failed loop-invariant obligation): every path and a ring of near misses of objects chosen for the corners of the path tree
+def _paths(d, prefix=''):
+    """independent enumerator: mappings by key, sequences by .[i], nothing below a scalar"""
+    import collections.abc as abc
+    for k in d:
+        v = d[k]; p = f'{prefix}{k}'
+        yield p
+        if isinstance(v, abc.Mapping): yield from _paths(v, p + '.')
+        elif isinstance(v, (list, tuple)):
+            for i, e in enumerate(v):
+                yield f'{p}.[{i}]'
+                if isinstance(e, abc.Mapping): yield from _paths(e, f'{p}.[{i}].')
+
+
+def selector_family():
+    import stix2
+    d = {'type': 'x-vf-shape', 'id': 'x-vf-shape--00000000-0000-4000-8000-000000000001', 'name': 'n', 'description': '', 'revoked': False, 'confidence': 0, 'score': 0.0, 'nothing': None,
+         'labels': [f'l{i}' for i in range(12)], 'ext': {'a': 1, 'b': {'c': [1, {'d': False}, []]}}, 'ext-more': {'x': ''}, 'e': {'k': {'z': None}}, 'pattern': 'p', 'pattern_type': 't',
+         'empty_list': [], 'empty_dict': {}, 'external_references': [{'source_name': 's'}, {'source_name': 't', 'url': ''}]}
+    ident = stix2.v21.Identity(name='n', description='', confidence=0, labels=[f'l{i}' for i in range(12)], external_references=[{'source_name': 's', 'external_id': 'e'}, {'source_name': 't', 'url': 'http://x', 'description': ''}])
+    lang = stix2.v21.LanguageContent(object_ref=ident.id, object_modified=ident.modified, contents={'en': {'name': 'a'}, 'en-us': {'name': 'b', 'description': ''}})
+    for name, o in (('dictionary', d), ('identity', ident), ('language-content', lang)):
+        valid = {p for p in _paths(o) if not p.startswith('granular_markings')}
+        near = set()
+        for p in valid:
+            near.update({p + '.x', p + '.[0]', p + 'x', p[:-1], p.replace('.[1]', '.[99]'), p.replace('.[11]', '.[12]'), p.rsplit('.', 1)[0] + '.zz' if '.' in p else 'zz'})
+        near = {q for q in near if q and q not in valid and not q.startswith('granular_markings')}
+        yield name, o, sorted(valid), sorted(near)
+
+
+def _selector_search():
+    for name, o, valid, near in selector_family():
+        for sel in valid: yield {'obj': o, 'selector': sel, '_shape': name, '_valid': True}
+        for sel in near: yield {'obj': o, 'selector': sel, '_shape': name, '_valid': False}
+
+
+def _selector_replay(fn, truthy):
+    from vf.check import Replay
+
+    def call(py):
+        import stix2.markings.utils as U
+        return getattr(U, fn)(py['obj'], py['selector'])
+
+    def judge(py, outcome, ob):
+        kind, val = outcome
+        if kind == 'raise': return [f'{fn}({py["_shape"]}, {py["selector"]!r}) raised {type(val).__name__}: {val}']
+        if truthy(val) != py['_valid']:
+            return [f'{fn}({py["_shape"]}, {py["selector"]!r}) -> {val!r}, but the selector ' + ('addresses an existing path' if py['_valid'] else 'addresses nothing')]
+        return []
+    rp = Replay(call=call, judge=judge); rp.search = _selector_search
+    return rp
+
+
+def _validate_replay():
+    from vf.check import Replay
+
+    def call(py):
+        import stix2.markings.utils as U
+        return U.validate(py['obj'], py['selectors'])
+
+    def search():
+        for name, o, valid, near in selector_family():
+            yield {'obj': o, 'selectors': None, '_shape': name, '_bad': True}; yield {'obj': o, 'selectors': [], '_shape': name, '_bad': True}
+            for i, v in enumerate(valid):
+                yield {'obj': o, 'selectors': [v], '_shape': name, '_bad': False}
+                yield {'obj': o, 'selectors': [valid[0], v, valid[-1]], '_shape': name, '_bad': False}
+                yield {'obj': o, 'selectors': [valid[0], v, near[i % len(near)]], '_shape': name, '_bad': True}
+                yield {'obj': o, 'selectors': [near[i % len(near)], v], '_shape': name, '_bad': True}
+
+    def judge(py, outcome, ob):
+        kind, val = outcome
+        refused = kind == 'raise' and type(val).__name__ == 'InvalidSelectorError'
+        if kind == 'raise' and not refused: return [f'validate({py["_shape"]}, {py["selectors"]!r}) raised {type(val).__name__}: {val}']
+        if refused != py['_bad']: return [f'validate({py["_shape"]}, {py["selectors"]!r}) ' + ('refused although every selector addresses an existing path' if refused else 'accepted although the list is empty or a selector addresses nothing')]
+        return []
+    rp = Replay(call=call, judge=judge); rp.search = search
+    return rp
+
+
 def evaluate_expression_contract():
     def h_iterpath(x, e, p, site):
         yield p.fork(NPATHS >= 0), Seq(lambda i: Val('tuple', x=[Val('pathitems', i), Val('opaque', x='value')]), NPATHS)
@@ -30,10 +110,11 @@ def evaluate_expression_contract():
         if r.sort != 'litlist': raise SortMismatch('a list literal expected, got ' + r.sort)
         hit = z3.Exists([j], z3.And(0 <= j, j < NPATHS, PATH(j) == a['selector'].t))
         return z3.BoolVal(len(r.x) >= 1) == hit
-    return Contract(f'{MU}::_evaluate_expression', props=['C08'],
+    return Contract(f'{MU}::_evaluate_expression', props=['C08', 'C07', 'C03', 'C17'],
                     params={'obj': 'opaque', 'selector': 'str'},
                     ensures=[('non-empty result <=> some path of the object equals the selector, whatever value is stored there', ens)],
                     raises={}, handlers={'iterpath': h_iterpath}, registry_ext={'methods': {('.join', 'str'): m_join}}, loops={0: {'kind': 'inv', 'inv': inv}},
+                    replay=_selector_replay('_evaluate_expression', lambda v: isinstance(v, list) and len(v) >= 1),
                     assumptions=['iterpath yields exactly the paths of the object (bounded check against an independent path enumerator)'],
                     note='the stored value does not influence validity (falsy values, repeated elements)')
 
@@ -55,7 +136,7 @@ def validate_selector_contract():
         if truthy is None: raise SortMismatch('bool or None expected')
         return truthy == (NRES >= 1)
     return Contract(f'{MU}::_validate_selector', props=['C08'], params={'obj': 'opaque', 'selector': 'str'},
-                    ensures=[('truthy <=> the selector matched at least one path', ens)], raises={},
+                    ensures=[('truthy <=> the selector matched at least one path', ens)], raises={}, replay=_selector_replay('_validate_selector', bool),
                     handlers={'_evaluate_expression': h_eval, 'list': h_list, 'len': h_len})
 
 
@@ -74,7 +155,7 @@ def validate_contract():
     bad = lambda a: z3.Or(sels.t[0], NSEL == 0, z3.Exists([j], z3.And(0 <= j, j < NSEL, z3.Not(VALID(SEL(j))))))
     return Contract(f'{MU}::validate', props=['C08', 'C03'], params={'obj': 'opaque', 'selectors': sels},
                     requires=[('length', lambda a: NSEL >= 0)],
-                    raises={'InvalidSelectorError': bad}, handlers={'_validate_selector': h_vs}, loops={0: {'kind': 'inv', 'inv': inv}},
+                    raises={'InvalidSelectorError': bad}, handlers={'_validate_selector': h_vs}, loops={0: {'kind': 'inv', 'inv': inv}}, replay=_validate_replay(),
                     note='raises iff the list is empty/None or some selector addresses nothing')
 
 
